@@ -20,7 +20,7 @@ from engine.interp import (Const, Sym, SymStr, ListV, TupleV, DictV, SetV, ObjV,
 from engine.loader import AnalysisError, ClassInfo
 from engine import roles as _roles
 
-_NODES = ast.parse('class ModelClass:\n    pass\nclass ModelInstance:\n    pass\n').body
+_NODES = ast.parse('class ModelClass:\n    pass\nclass ModelInstance:\n    pass\nclass ModelSignature:\n    pass\n').body
 
 KINDS = {
     # kind: (accepts trailing_comment, is container)
@@ -30,7 +30,11 @@ KINDS = {
     'intsub': (False, False), 'strsub': (False, False),
     # instances of the built-in containers themselves (type(value) is list / dict)
     'pylist': (True, True), 'pydict': (True, True),
+    # printers that take the trailing comment through **kwargs (no parameter of that name): a working container and one that raises
+    # a genuine TypeError
+    'listkw': (True, True), 'badtckw': (True, False),
 }
+VIA_KWARGS = {'listkw', 'badtckw'}
 PYTYPE = {'pylist': 'list', 'pydict': 'dict'}
 BUILTIN_BASE = {'intsub': 'int', 'strsub': 'str'}
 
@@ -64,6 +68,7 @@ class World:
         self.it.globals_store[(self.m.name, _roles.name(repo, 'dispatch'))] = Prim('pretty_dispatch')
         self.cinfo = ClassInfo(None, _NODES[0])
         self.iinfo = ClassInfo(None, _NODES[1])
+        self.siginfo = ClassInfo(None, _NODES[2])
         self.base = self.it.global_name(self.m, _roles.name(repo, 'base_dispatch'))
         self.classes = {}
         for kind in KINDS:
@@ -115,12 +120,27 @@ class World:
 
     def p_signature(self, it, a, k, n):
         self.sigs.append(a[0])
-        return Sym('signature#%d' % (len(self.sigs) - 1))
+        sig = ObjV(self.siginfo)
+        sig.attrs['__sig__'] = Const(len(self.sigs) - 1)
+        # .parameters: the names a caller can see (a **kwargs printer shows 'kwargs', not the keywords it understands)
+        fn, npre = a[0], 0
+        while isinstance(fn, PartialV):
+            npre += len(fn.args)
+            fn = fn.func
+        if isinstance(fn, Prim) and fn.name.startswith('P.'):
+            kind = fn.name[2:]
+            names = ['value', 'ctx'] + (['kwargs'] if kind in VIA_KWARGS else (['trailing_comment'] if KINDS[kind][0] else []))
+        elif isinstance(fn, FuncV) and fn.fn is not None:
+            names = list(fn.fn.params)
+        else:
+            raise Undecided('signature of %s' % prov(fn))
+        sig.attrs['parameters'] = DictV([(Const(x), Const(x)) for x in names[npre:]])
+        return sig
 
     def m_bind(self, it, obj, a, k, n):
-        if not (isinstance(obj, Sym) and obj.prov.startswith('signature#')):
+        if not (isinstance(obj, ObjV) and obj.cls is self.siginfo):
             return NotImplemented
-        fn = self.sigs[int(obj.prov.split('#')[1])]
+        fn = self.sigs[obj.attrs['__sig__'].v]
         pre = []
         while isinstance(fn, PartialV):
             pre = list(fn.args) + pre
@@ -165,7 +185,7 @@ class World:
         name = self.names.get(id(value), '?')
         if kind == 'bad':
             raise Raised('RuntimeError: boom in the printer of %s' % name, getattr(n, 'lineno', 0))
-        if kind == 'badtc':
+        if kind in ('badtc', 'badtckw'):
             raise Raised('TypeError: boom inside a printer that accepts the comment (%s)' % name, getattr(n, 'lineno', 0))
         if kind == 'badrec':
             raise Raised('RecursionError: maximum recursion depth exceeded in the printer of %s' % name, getattr(n, 'lineno', 0))
@@ -178,7 +198,7 @@ class World:
         if not container:
             return Const('leaf(%s)' % name)
         dl = it.getattr(ctx, 'depth_left', n)
-        tag = {'list': 'L', 'box': 'B', 'pylist': 'PL', 'pydict': 'PD'}[kind]
+        tag = TAG[kind]
         if isinstance(dl, Const) and dl.v == 0:
             return Const('%s(%s)[...]' % (tag, name))
         nested = it.call_method(ctx, 'nested_call', [], {}, n)
@@ -255,7 +275,7 @@ class NotCut(Exception):
     pass
 
 
-TAG = {'list': 'L', 'box': 'B', 'pylist': 'PL', 'pydict': 'PD'}
+TAG = {'list': 'L', 'box': 'B', 'pylist': 'PL', 'pydict': 'PD', 'listkw': 'LK'}
 
 
 def spec(w, value, warns, depth=None):
@@ -278,7 +298,7 @@ def spec(w, value, warns, depth=None):
         if tc is not None and not accepts:
             warns.append('no-trailing-comment-support')
             tc = None
-        if kind in ('bad', 'badtc', 'badrec', 'badmem'):
+        if kind in ('bad', 'badtc', 'badtckw', 'badrec', 'badmem'):
             warns.append('bad-printer')
             return 'repr(%s)' % name
         if kind in ('badret', 'retnone'):
@@ -349,6 +369,8 @@ def scenarios(w):
     out.append(('failing printer twice and nested', n('list', 'top', [bad, n('box', 'in', [bad, a]), bad]), 'C14'))
     out.append(('failing printer with a trailing comment', n('list', 'top', [w.trailing(bad, 'tc'), b]), 'C14'))
     out.append(('TypeError inside a printer that accepts the comment', n('list', 'top', [w.trailing(n('badtc', 'btc'), 'tc'), n('badtc', 'btc2'), b]), 'C14'))
+    out.append(('TypeError inside a printer that takes the comment through **kwargs', n('list', 'top', [w.trailing(n('badtckw', 'bkw'), 'tc'), b]), 'C14'))
+    out.append(('trailing comment on a printer that takes it through **kwargs', n('list', 'top', [w.trailing(n('listkw', 'lk', [a]), 'note'), b]), 'C14'))
     out.append(('failing printer at top level', bad, 'C14'))
     out.append(('failing printer below a cycle', None, 'C14'))
     x = n('list', 'x', [bad])
